@@ -41,13 +41,21 @@ def ingest_order(repo):
     """Order of the validation / store calls in `ingest_operation`, the expression `past_header` is
     bound to, the arguments of the log validation and what the dedup branch returns."""
     body = fn_body(read(repo, "p2panda-stream/src/ingest/operation.rs"), "ingest_operation")
-    vocab = ["validate_operation", "begin", "has_operation_tx", "rollback", "get_latest_entry_tx", "get_latest_entry",
+    vocab = ["validate_operation", "validate_header", "begin", "has_operation_tx", "has_operation", "get_operation_tx",
+             "get_operation", "rollback", "get_latest_entry_tx", "get_latest_entry",
              "validate_prunable_backlink", "validate_backlink", "insert_operation", "associate", "commit", "prune_entries"]
     calls = []
     for m in re.finditer(r"\b(" + "|".join(vocab) + r")\s*\(", body):
         calls.append((m.start(), m.group(1)))
     calls.sort()
     print("def ingestCalls : List String := [" + ", ".join(json.dumps(c) for _, c in calls) + "]")
+    # every call (function or method, whatever its name) that textually precedes validate_operation(…)
+    first = re.search(r"\bvalidate_operation\s*\(", body)
+    head = body[:first.start()] if first else body
+    before = re.findall(r"\b([A-Za-z_][A-Za-z0-9_]*)\s*\(", head)
+    print("def callsBeforeValidate : List String := [" + ", ".join(json.dumps(c) for c in before) + "]")
+    m0 = re.search(r"validate_operation\((.*?)\)(\??);", body, re.S)
+    print("def validateCall : String := " + lean_str((m0.group(1) + " " + m0.group(2)) if m0 else "MISSING"))
     m = re.search(r"let past_header\s*=\s*(.*?);\s*validate_prunable_backlink", body, re.S)
     if not m:
         raise SystemExit("binding of past_header directly before validate_prunable_backlink not found")
